@@ -120,10 +120,35 @@ def coq_make(targets, timeout=1500):
     return out
 
 
-def coq_source_audit():
-    """no Admitted/Axiom/... anywhere in the development (comments are stripped first)"""
+def coq_closure(roots):
+    """the .v files (relative to coq/) that the given .v files depend on, transitively (via coqdep)"""
+    rc, out = sh(["coqdep", "-Q", ".", "RB"] + coq_files(), cwd=COQ, timeout=300)
+    deps = {}
+    for line in out.split("\n"):
+        if ":" not in line:
+            continue
+        lhs, rhs = line.split(":", 1)
+        tgt = [t for t in lhs.split() if t.endswith(".vo")]
+        if not tgt:
+            continue
+        src = tgt[0][:-1]
+        deps[src] = [d[:-1] for d in rhs.split() if d.endswith(".vo")]
+    seen = set()
+    todo = list(roots)
+    while todo:
+        f = os.path.normpath(todo.pop())
+        if f in seen:
+            continue
+        seen.add(f)
+        todo += deps.get(f, [])
+    return sorted(seen)
+
+
+def coq_source_audit(roots=None):
+    """no Admitted/Axiom/... in the development the given files depend on (all files when roots is None);
+    comments are stripped first"""
     bad = []
-    for f in coq_files():
+    for f in (coq_closure(roots) if roots else coq_files()):
         txt = open(os.path.join(COQ, f)).read()
         txt = strip_coq_comments(txt)
         for i, line in enumerate(txt.split("\n"), 1):
@@ -397,7 +422,7 @@ class Ctx:
     def proof(self, prop_file=None, timeout=1500):
         """build Properties/<Cxx>.vo, audit, record obligations. Raises BrokenTie when a proof fails."""
         prop_file = prop_file or self.prop
-        bad = coq_source_audit()
+        bad = coq_source_audit(["Properties/%s.v" % prop_file])
         if bad:
             raise BrokenTie("source audit: forbidden declarations in coq/", "\n".join(bad))
         res = coq_property(prop_file, timeout=timeout)
